@@ -70,15 +70,16 @@ def dens(obj):
     return _DENS[key]
 
 
-def ambiguous(obj):
-    """nuclide names present here that are also element symbols with isotopes present here ('O' next to 'O16'):
-    getMass('O') then means the element (it expands per component), not the single nuclide - such names are kept
-    out of the single-nuclide mass comparisons and mass edits."""
+def ambiguous(obj, extra=()):
+    """nuclide names (present here, or in `extra`) that are also element symbols with isotopes present here ('O'
+    next to 'O16', or 'MN' asked of a block that only holds 'MN55'): getMass('O') then means the element (it
+    expands per component), not the single nuclide - such names are kept out of the single-nuclide mass
+    comparisons and mass edits."""
     from armi.nucDirectory import elements
 
     here = set(obj.getNuclides())
     out = set()
-    for n in here:
+    for n in here | set(extra):
         el = elements.bySymbol.get(n)
         if el is not None and any(nb.name in here and nb.name != n for nb in el.nuclides):
             out.add(n)
@@ -207,6 +208,25 @@ def add_snap(ctx, mir, what, case, obj, path, nucs):
                 return
 
     mir.emit(f"snap {pth(path)} {intlist([mir.nid(n) for n in nucs])}", check)
+
+
+def add_volfracs(ctx, mir, what, case, obj, path):
+    """getVolumeFractions() of a composite vs Node.volFrac; oracle: the fractions sum to one."""
+    vals = [float(vf) for _c, vf in obj.getVolumeFractions()]
+    if vals and abs(sum(vals) - 1.0) > 1e-9:
+        ctx.fail(f"volume-fractions-sum-{level_of(obj)}", "volume fractions of the children sum to one", case,
+                 observed=sum(vals), expected=1.0)
+
+    def check(line, vals=vals, case=case):
+        try:
+            qs = [common.unrat(x) for x in common.parse_list(line)]
+        except Exception:
+            ctx.disagree(what, case, line, vals)
+            return
+        if len(qs) != len(vals) or any(not rel_close(v, q) for v, q in zip(vals, qs)):
+            ctx.disagree(what, case, [float(q) for q in qs], vals)
+
+    mir.emit(f"volfracs {pth(path)}", check)
 
 
 # --------------------------------------------------------------------------- oracle on the real objects
@@ -576,7 +596,7 @@ def edit_sequence(ctx, mir, assemblies, paths, targets, nedits, label, resync=6)
         if lvl != "component" and len(obj):
             chain.append(rng.choice(list(obj)))
         for o in chain:
-            amb = ambiguous(o)
+            amb = ambiguous(o, nucs)
             add_snap(ctx, mir, f"{label}: Model/Compo vs {level_of(o)} after {op}", dict(case, observed_at=level_of(o)),
                      o, paths[id(o)], [n for n in nucs if n not in amb])
             additivity(o, fail, nucs[:3])
@@ -651,6 +671,8 @@ def run_core(ctx, r):
             specifier_variants(b, fb)
             add_snap(ctx, mir, "core: Model/Compo vs Block", dict(case, block=b.name, sym=b.getSymmetryFactor()),
                      b, paths[id(b)], bn)
+            add_volfracs(ctx, mir, "core: Node.volFrac vs Block.getVolumeFractions",
+                         dict(case, block=b.name, sym=b.getSymmetryFactor()), b, paths[id(b)])
             c = rng.choice(list(b))
             additivity(c, fb, [])
             add_snap(ctx, mir, "core: Model/Compo vs Component", dict(case, block=b.name, comp=c.name),
@@ -690,7 +712,7 @@ def run_assemblies(ctx, r):
     centre = [a for a in assems if a.getSymmetryFactor() == 3.0]
     edge = [a for a in assems if a.getSymmetryFactor() == 2.0]
     plain = [a for a in assems if a.getSymmetryFactor() == 1.0]
-    chosen = centre[:1] + edge[:1] + rng.sample(plain, ctx.pick(2, 10))
+    chosen = centre[:1] + edge[:1] + rng.sample(plain, ctx.pick(2, 8))
     for a in chosen:
         mir = Mirror()
         paths = mir.load([a], extra_nucs=("PU239", "AM241", "HE4"))
@@ -826,7 +848,7 @@ def run_generated(ctx):
     from armi.reactor import grids
 
     rng = ctx.rng
-    n = ctx.pick(8, 120)
+    n = ctx.pick(8, 80)
     third = grids.HexGrid.fromPitch(16.0, numRings=3, symmetry="third periodic")
     made = 0
     for idx in range(n):
@@ -854,6 +876,7 @@ def run_generated(ctx):
             additivity(o, fail, nucs)
             specifier_variants(o, fail)
             add_snap(ctx, mir, f"{label}: Model/Compo vs {level_of(o)}", dict(case, observed_at=level_of(o)), o, paths[id(o)], nucs)
+            add_volfracs(ctx, mir, f"{label}: Node.volFrac vs getVolumeFractions", dict(case, observed_at=level_of(o)), o, paths[id(o)])
         targets = [a] + blocks + [c for b in blocks[:2] for c in rng.sample(list(b), 2)]
         edit_sequence(ctx, mir, [a], paths, targets, ctx.pick(12, 24), label)
         run_session(ctx, mir, label)
@@ -956,15 +979,33 @@ def run_findings(ctx, r):
                       "symmetry_factor": float(blk.getSymmetryFactor())}, observed=got, expected=100.0)
 
 
+def guarded(ctx, name, fn):
+    """an exception escaping from the real accounting API on a valid object is a failure of the property's
+    implementation (with the traceback tail as the observation), not an infrastructure error"""
+    import traceback
+
+    try:
+        fn()
+    except common.Infra:
+        raise
+    except Exception as e:
+        tb = traceback.extract_tb(e.__traceback__)
+        inside = [f"{fr.filename.split('/armi/')[-1]}:{fr.lineno} {fr.name}" for fr in tb if "/armi/" in fr.filename]
+        if not inside:
+            raise
+        ctx.fail("accounting-call-raises", "mass / density / number-density queries and edits do not raise on valid objects",
+                 {"stream": name, "where": inside[-3:]}, observed=repr(e)[:300])
+
+
 def run(ctx):
     with common.scratch_dir():
         r = make_reference(ctx)
-        run_conversions(ctx)
-        run_core(ctx, r)
-        run_assemblies(ctx, r)
-        run_zero_refill(ctx, r)
-        run_generated(ctx)
-        run_findings(ctx, r)
+        guarded(ctx, "densityTools", lambda: run_conversions(ctx))
+        guarded(ctx, "reference core", lambda: run_core(ctx, r))
+        guarded(ctx, "assemblies", lambda: run_assemblies(ctx, r))
+        guarded(ctx, "void-and-refill", lambda: run_zero_refill(ctx, r))
+        guarded(ctx, "generated", lambda: run_generated(ctx))
+        guarded(ctx, "findings", lambda: run_findings(ctx, r))
     ctx.rule = ("reference third-core reactor with edge assemblies (symmetry factors 1, 2, 3): every assembly and the core "
                 "compared and checked for additivity; seeded edit sequences (9 edit kinds x 4 levels, values incl. 0.0, 1e-50, "
                 "identity factors, absent nuclides, refused calls) on centre / edge / ordinary assemblies, a void-and-refill "
@@ -987,13 +1028,13 @@ def search(ctx, disagreements, broken):
 
     with common.scratch_dir():
         r = make_reference(sub)
-        run_zero_refill(sub, r)
-        run_assemblies(sub, r)
+        guarded(sub, "void-and-refill", lambda: run_zero_refill(sub, r))
+        guarded(sub, "assemblies", lambda: run_assemblies(sub, r))
         if not unknown() or any(s.startswith("generated") for s in streams):
-            run_generated(sub)
+            guarded(sub, "generated", lambda: run_generated(sub))
         if any(s.startswith("reference core") for s in streams) and not unknown():
-            run_core(sub, r)
-        run_conversions(sub)
+            guarded(sub, "reference core", lambda: run_core(sub, r))
+        guarded(sub, "densityTools", lambda: run_conversions(sub))
     return [f for f in sub.failures]
 
 
